@@ -54,6 +54,9 @@ pub enum Budget {
     Production,
     /// huge wall budget and a logical step budget (load independent)
     Steps(u64),
+    /// a tiny real wall-clock budget and no logical budget: the deadline path of the parser itself
+    /// (the stimulus is time dependent, the verdict — the parse returns a well-formed outcome — is not)
+    WallMs(u64),
 }
 
 pub fn record_parse(b: &Built, st: &StateTable<u32>, si: &SynInput, cost: &dyn Fn(TIdx<u32>) -> u8, budget: Budget) -> Result<ParseRec, String> {
@@ -65,6 +68,10 @@ pub fn record_parse(b: &Built, st: &StateTable<u32>, si: &SynInput, cost: &dyn F
         Budget::Steps(n) => {
             lrpar::verif::set_recovery_budget_ms(Some(3_600_000));
             lrpar::verif::set_recovery_step_budget(Some(n));
+        }
+        Budget::WallMs(n) => {
+            lrpar::verif::set_recovery_budget_ms(Some(n));
+            lrpar::verif::set_recovery_step_budget(None);
         }
     }
     let t0 = lrpar::verif::timeouts_observed();
@@ -185,10 +192,24 @@ pub fn continue_plain(b: &Built, st: &StateTable<u32>, toks: &[TIdx<u32>], cfg: 
 /// repair when the real lexeme cannot be shifted). Used only to classify a failing sequence:
 /// true if some such interleaving makes the sequence replay and continue.
 pub fn replays_with_reductions_under_real_lookahead(b: &Built, st: &StateTable<u32>, toks: &[TIdx<u32>], cfg: &Cfg, pos: usize, seq: &[Rep]) -> bool {
-    fn go(b: &Built, st: &StateTable<u32>, toks: &[TIdx<u32>], cfg: &Cfg, p: usize, seq: &[Rep], depth: usize) -> bool {
-        if depth > 64 {
+    // `failed` memoises (stack, input position, repairs left) triples from which no interleaving
+    // works: without it the reduce-or-not choice at every step makes long sequences exponential.
+    type Memo = std::collections::HashSet<(Vec<StIdx<u32>>, usize, usize)>;
+    fn go(b: &Built, st: &StateTable<u32>, toks: &[TIdx<u32>], cfg: &Cfg, p: usize, seq: &[Rep], depth: usize, failed: &mut Memo) -> bool {
+        if depth > 4000 {
             return false;
         }
+        let key = (cfg.stack.clone(), p, seq.len());
+        if failed.contains(&key) {
+            return false;
+        }
+        let r = go1(b, st, toks, cfg, p, seq, depth, failed);
+        if !r {
+            failed.insert(key);
+        }
+        r
+    }
+    fn go1(b: &Built, st: &StateTable<u32>, toks: &[TIdx<u32>], cfg: &Cfg, p: usize, seq: &[Rep], depth: usize, failed: &mut Memo) -> bool {
         if seq.is_empty() {
             let (sh, acc) = continue_plain(b, st, toks, cfg, p, parse_at_least());
             if acc || sh >= parse_at_least() {
@@ -198,26 +219,27 @@ pub fn replays_with_reductions_under_real_lookahead(b: &Built, st: &StateTable<u
         // option: reduce under the real lookahead first (only if that ends in an error, i.e. no shift)
         let la = if p < toks.len() { toks[p] } else { b.grm.eof_token_idx() };
         let mut red = cfg.clone();
-        if red.feed(&b.grm, st, la) == Step::Error && red.stack != cfg.stack && go(b, st, toks, &red, p, seq, depth + 1) {
+        if red.feed(&b.grm, st, la) == Step::Error && red.stack != cfg.stack && go(b, st, toks, &red, p, seq, depth + 1, failed) {
             return true;
         }
         let Some((first, rest)) = seq.split_first() else { return false };
         match first {
             Rep::Insert(t) => {
                 let mut c = cfg.clone();
-                c.feed(&b.grm, st, TIdx(*t)) == Step::Shifted && go(b, st, toks, &c, p, rest, depth + 1)
+                c.feed(&b.grm, st, TIdx(*t)) == Step::Shifted && go(b, st, toks, &c, p, rest, depth + 1, failed)
             }
-            Rep::Delete(i) => *i == p && p < toks.len() && go(b, st, toks, cfg, p + 1, rest, depth + 1),
+            Rep::Delete(i) => *i == p && p < toks.len() && go(b, st, toks, cfg, p + 1, rest, depth + 1, failed),
             Rep::Shift(i) => {
                 if *i != p || p >= toks.len() {
                     return false;
                 }
                 let mut c = cfg.clone();
-                c.feed(&b.grm, st, toks[p]) == Step::Shifted && go(b, st, toks, &c, p + 1, rest, depth + 1)
+                c.feed(&b.grm, st, toks[p]) == Step::Shifted && go(b, st, toks, &c, p + 1, rest, depth + 1, failed)
             }
         }
     }
-    go(b, st, toks, cfg, pos, seq, 0)
+    let mut failed = Memo::new();
+    go(b, st, toks, cfg, pos, seq, 0, &mut failed)
 }
 
 pub struct ReplayStats {
@@ -549,10 +571,12 @@ pub fn gen_rec_case(rng: &mut Rng, small_alphabet: bool) -> Option<RecCase> {
         if table_has_reduce_loop(&b.grm, usize::from(sg.all_states_len()), &st) {
             continue;
         }
-        let (costs, cost_kind): (Vec<u8>, &'static str) = match rng.below(4) {
-            0 => (vec![1; ag.tokens.len()], "all-1"),
-            1 => ((0..ag.tokens.len()).map(|_| rng.range(1, 3) as u8).collect(), "1-3"),
-            2 => ((0..ag.tokens.len()).map(|_| rng.range(200, 255) as u8).collect(), "all-200-255"),
+        let (costs, cost_kind): (Vec<u8>, &'static str) = match rng.below(8) {
+            0 | 1 => (vec![1; ag.tokens.len()], "all-1"),
+            2 | 3 => ((0..ag.tokens.len()).map(|_| rng.range(1, 3) as u8).collect(), "1-3"),
+            4 => ((0..ag.tokens.len()).map(|_| rng.range(200, 255) as u8).collect(), "all-200-255"),
+            // cheap and dear tokens within a factor of four: "two cheap repairs or one dear one" trade-offs
+            5 | 6 => ((0..ag.tokens.len()).map(|_| if rng.chance(1, 2) { rng.range(200, 255) as u8 } else { rng.range(60, 90) as u8 }).collect(), "mixed-60-90-and-200-255"),
             _ => ((0..ag.tokens.len()).map(|_| if rng.chance(1, 3) { rng.range(200, 255) as u8 } else { rng.range(1, 2) as u8 }).collect(), "some-200-255"),
         };
         return Some(RecCase { ag, b, st, costs, cost_kind });
